@@ -140,29 +140,28 @@ Proof.
          | VUndef | VNull => if ns then ret VNull else fail e_nullref
          | VList _ li =>
              match oi with
-             | Some i => if (i =? -1)%Z then fail e_index else dataref_access w acc (list_index li i)
+             | Some i => dataref_access w acc (list_index li i)
              | None => fail e_index
              end
-         | VMap _ m => match k with [] => fail e_key | _ => dataref_access w acc (map_key m k) end
+         | VMap _ m => match oi with None => dataref_access w acc (map_key m k) | Some _ => fail e_key end
          | _ => fail e_noncollection
          end st1)
         (sE (match ref return E value with
          | VUndef | VNull => if ns then eret VNull else efail e_nullref
          | VList _ li =>
              match oi with
-             | Some i => if (i =? -1)%Z then efail e_index else access_spec l en acc (list_index li i)
+             | Some i => access_spec l en acc (list_index li i)
              | None => efail e_index
              end
-         | VMap _ m => match k with [] => efail e_key | _ => access_spec l en acc (map_key m k) end
+         | VMap _ m => match oi with None => access_spec l en acc (map_key m k) | Some _ => efail e_key end
          | _ => efail e_noncollection
          end) (next_id st1)) (Qe c md)).
     { intros ns oi k st1 Hg1 Hc1 Hm1.
       destruct ref; try apply rel_efail.
       - destruct ns; [apply rel_eret; [assumption | qe] | apply rel_efail].
       - destruct ns; [apply rel_eret; [assumption | qe] | apply rel_efail].
-      - destruct oi as [i|]; [|apply rel_efail].
-        destruct (i =? -1)%Z; [apply rel_efail | apply IH; assumption].
-      - destruct k; [apply rel_efail | apply IH; assumption]. }
+      - destruct oi as [i|]; [apply IH; assumption | apply rel_efail].
+      - destruct oi as [i|]; [apply rel_efail | apply IH; assumption]. }
     destruct a; try (apply rel_err).
     + (* NAccIndex *) apply (TAIL nullsafe (Some i) []); assumption.
     + (* NAccKey *) apply (TAIL nullsafe None k); assumption.
